@@ -20,6 +20,10 @@ fn judge(p: &Params, out: &Out, r: &RefOut, js: &mut Judgements) -> usize {
 }
 
 fn params_for(kind: Kind, rng: &mut Rng, maxp: usize) -> Params {
+    // one draw in twelve is the documented default configuration (which the wrapper builds through Default::default())
+    if rng.below(12) == 0 {
+        return kind.default_params();
+    }
     let per = |rng: &mut Rng| match rng.below(8) {
         0 => 1,
         1 => 2,
